@@ -1462,13 +1462,29 @@ def _term_loop_joins_pending():
     raise LookupError("terminate loop condition " + t)
 
 
+@fact("term_vias_count_tojoin", "bool", "false")
+def _term_vias_count_tojoin():
+    """Group.terminate collects the via gateways over the members AND the gateways still to be joined"""
+    f = find("multi.py", "Group.terminate")
+    ws = [n for n in f.body if isinstance(n, ast.While)]
+    fors = [n for n in ws[0].body if isinstance(n, ast.For)] if len(ws) == 1 else []
+    if len(fors) != 2 or "vias.add(gw.spec.via)" not in _src(fors[0]):
+        raise LookupError("terminate via loop")
+    it = _src(fors[0].iter)
+    if it == "[*self, *self._gateways_to_join]":
+        return "true"
+    if it == "self":
+        return "false"
+    raise LookupError("terminate via loop iterates over " + it)
+
+
 @fact("term_terminate_ok", "bool", "false")
 def _term_terminate_ok():
     """Group.terminate: while members remain: exit every member that is nobody's via; join + wait resp. kill of the io
     for every exited member through safe_terminate; Gateway.exit unregisters first and swallows IO errors; the popen IO's
     kill/wait act on the child process"""
     t = _src(find("multi.py", "Group.terminate"))
-    need = ["while self or self._gateways_to_join:", "for gw in self:\n            if gw.spec.via:\n                vias.add(gw.spec.via)", "for gw in self:\n            if gw.id not in vias:\n                gw.exit()",
+    need = ["while self or self._gateways_to_join:", "for gw in [*self, *self._gateways_to_join]:\n            if gw.spec.via:\n                vias.add(gw.spec.via)", "for gw in self:\n            if gw.id not in vias:\n                gw.exit()",
             "def join_wait(gw: Gateway) -> None:\n            gw.join()\n            gw._io.wait()", "gw._io.kill()",
             "safe_terminate(self.execmodel, timeout, [(partial(join_wait, gw), partial(kill, gw)) for gw in self._gateways_to_join])", "self._gateways_to_join[:] = []"]
     ok = all(x in t for x in need)
